@@ -1,0 +1,38 @@
+//! Verification seams (compiled only with `--cfg quandary_verif`): re-exports of
+//! the simulated runtime and the adapters that must live in this crate because
+//! the socket traits are crate-private.
+pub use quandary_simrt::{fs, hash, rand, sync, thread, time};
+
+pub mod net {
+    pub use quandary_simrt::net::{TcpListener, TcpStream, UdpSocket};
+}
+#[cfg(feature = "tokio")]
+pub mod tokio_net {
+    pub use quandary_simrt::tokio_net::{AsyncUdpSocket, TcpListener, TcpStream};
+}
+
+use std::io;
+use std::net::{IpAddr, SocketAddr};
+use std::time::Duration;
+
+impl crate::io::socket::TcpListenerApi for net::TcpListener {
+    const POLL_ACCEPT_WORKS: bool = true;
+    fn bind(addr: SocketAddr) -> io::Result<Self> { net::TcpListener::bind(addr) }
+    fn set_nonblocking(&self, nb: bool) -> io::Result<()> { net::TcpListener::set_nonblocking(self, nb) }
+    fn poll_accept(&self, timeout: Duration) -> io::Result<bool> { net::TcpListener::poll_accept(self, timeout) }
+    fn accept(&self) -> io::Result<(net::TcpStream, SocketAddr)> { net::TcpListener::accept(self) }
+}
+impl crate::io::socket::UdpSocketApi for net::UdpSocket {
+    type LocalAddr = IpAddr;
+    const SUPPORTS_LOCAL_ADDRESS_SELECTION: bool = true;
+    fn bind(addr: SocketAddr) -> io::Result<Self> { net::UdpSocket::bind(addr) }
+    fn set_read_timeout(&self, t: Option<Duration>) -> io::Result<()> { net::UdpSocket::set_read_timeout(self, t) }
+    fn recv(&mut self, buf: &mut [u8]) -> io::Result<(usize, SocketAddr, IpAddr)> { net::UdpSocket::recv(self, buf) }
+    fn send(&mut self, buf: &[u8], dest: SocketAddr, src: IpAddr) -> io::Result<usize> { net::UdpSocket::send(self, buf, dest, src) }
+}
+#[cfg(feature = "tokio")]
+impl crate::io::socket::AsyncUdpSocketApi for tokio_net::AsyncUdpSocket {
+    fn bind(addr: SocketAddr) -> io::Result<Self> { tokio_net::AsyncUdpSocket::bind(addr) }
+    fn poll_recv(&mut self, cx: &mut std::task::Context<'_>, buf: &mut [u8]) -> std::task::Poll<io::Result<(usize, SocketAddr, IpAddr)>> { tokio_net::AsyncUdpSocket::poll_recv(self, cx, buf) }
+    fn poll_send(&mut self, cx: &mut std::task::Context<'_>, buf: &[u8], dest: SocketAddr, src: IpAddr) -> std::task::Poll<io::Result<usize>> { tokio_net::AsyncUdpSocket::poll_send(self, cx, buf, dest, src) }
+}
